@@ -29,6 +29,12 @@ def bitsIO : SetIO (BitSet 8) :=
     disp := fun b =>
       "{" ++ ",".intercalate (((List.range 8).filter fun i => b.bits.getD i false).map toString) ++ "}" }
 
+/-- the harness's `BlurSet8`: member `i` prints as `i % 4` (a non-injective `Display`) -/
+def blurIO : SetIO (BitSet 8) :=
+  { parse := fun s => s.trimAscii.toString.toNat?.map bitsOfMask,
+    disp := fun b =>
+      "{" ++ ",".intercalate ((((List.range 8).filter fun i => b.bits.getD i false).map (· % 4)).eraseReps.map toString) ++ "}" }
+
 def bits2OfMask (m : Nat) : BitSet 2 := ⟨(List.range 2).map fun i => (m >>> i) % 2 == 1⟩
 
 def bits2IO : SetIO (BitSet 2) :=
